@@ -34,6 +34,11 @@ def gen(rng):
         j["tfluid_k"] = feeds[0]
     for i, e in enumerate(s["heat_consumers"]):
         e["index"] = i
+    if len(s["heat_consumers"]) > 1 and rng.random() < 0.4:
+        # consumer labels that are not ascending in row order (drawn last: everything else of the case stays what it was)
+        lab = netgen._labels(rng, len(s["heat_consumers"]), str(rng.choice(["shuffled", "sparse"])))
+        for e, l in zip(s["heat_consumers"], lab):
+            e["index"] = int(l)
     return s
 
 
